@@ -74,24 +74,28 @@ def _replay_phaseless(o, cls):
             norb, nelec = 2, (1, 1)
 
             def calc_force_bias(self, walkers, ham_data, wave_data):
-                return jnp.zeros((3, 1)) + 0j
+                return jnp.zeros((5, 1)) + 0j
 
             def calc_overlap(self, walkers, wave_data):
-                return jnp.array([-0.5 + 0.1j, 0.2 + 0.0j, 1e-6 + 0j])
+                return jnp.array([-0.5 + 0.1j, 0.2 + 0.0j, 1e-6 + 0j, 150.0 + 0j, jnp.inf + 0j])
 
             def __hash__(self):
                 return 1
 
             def __eq__(self, other):
                 return isinstance(other, Stub)
-        prop = getattr(propagation, cls)(dt=0.05, n_walkers=3)
+        prop = getattr(propagation, cls)(dt=0.05, n_walkers=5)
         prop._apply_trotprop = lambda ham_data, walkers, fields: walkers
         ham = dict(mf_shifts=jnp.zeros(1) + 0j, h0_prop=0.0, chol=jnp.zeros((1, 4)), exp_h1=jnp.eye(2))
-        pd = dict(walkers=jnp.zeros((3, 2, 1)) + 0j, weights=jnp.array([1.0, 1.0, 1.0]), overlaps=jnp.ones(3) + 0j, pop_control_ene_shift=jnp.array(0.0), e_estimate=jnp.array(0.0))
-        out = propagation.propagator.propagate.__wrapped__(prop, Stub(), ham, pd, jnp.zeros((3, 1)), {})
+        w_in = np.array([1.0, 1.0, 1.0, 0.1, 0.0])
+        pd = dict(walkers=jnp.zeros((5, 2, 1)) + 0j, weights=jnp.array(w_in), overlaps=jnp.ones(5) + 0j, pop_control_ene_shift=jnp.array(0.0), e_estimate=jnp.array(0.0))
+        out = propagation.propagator.propagate.__wrapped__(prop, Stub(), ham, pd, jnp.zeros((5, 1)), {})
         w = np.asarray(out["weights"])
-        ok = np.all(np.isfinite(w)) and np.all(w >= 0) and np.all((w == 0) | ((w >= 1e-3) & (w <= 100)))
+        fac = np.where(w_in > 0, w / np.where(w_in > 0, w_in, 1.0), 0.0)     # single-step factor of the live walkers
+        ok = (np.all(np.isfinite(w)) and np.all(w >= 0) and np.all((w == 0) | ((w >= 1e-3) & (w <= 100)))
+              and np.all((fac == 0) | ((fac >= 1e-3 * (1 - 1e-12)) & (fac <= 100 * (1 + 1e-12)))) and np.all(w[w_in == 0] == 0))
         o["replayed"] = bool(not ok)
-        o["witness"] = dict(model=o.get("witness"), native=dict(stub_overlap_ratios=["-0.5+0.1j (phase beyond pi/2)", "0.2", "1e-6"], weights_after_one_step=w.tolist()))
+        o["witness"] = dict(model=o.get("witness"), native=dict(stub_overlap_ratios=["-0.5+0.1j (phase beyond pi/2)", "0.2", "1e-6", "150 (incoming weight 0.1)", "inf (incoming weight 0)"],
+                                                                incoming_weights=w_in.tolist(), weights_after_one_step=w.tolist()))
     except Exception as e:   # noqa
         o["witness"] = dict(model=o.get("witness"), native_error=repr(e)[:300])
